@@ -92,3 +92,17 @@ func GoodCountdown(s []byte) int {
 	}
 	return records
 }
+
+// Controls for SUBWORD.
+
+// BadByteProduct forms the triangle offset in byte arithmetic.
+func BadByteProduct(s []byte, edges []byte, cur int) {
+	u := s[0] - 1
+	edges[int(u*(u-1)/2)+cur] = 1
+}
+
+// GoodIntProduct converts first.
+func GoodIntProduct(s []byte, edges []byte, cur int) {
+	u := int(s[0]) - 1
+	edges[u*(u-1)/2+cur] = 1
+}
